@@ -346,6 +346,7 @@ def body_missing_jacobian(case, ctx):
 def history_cases(draw):
     base = draw(cases())
     base["extreme_log"] = None        # (scales at the ends of the float range are the subject of the value / gradient sub-checks)
+    base["caller_reuses_data"] = draw(st.booleans())
     base["x"], base["log10s"], base["z"] = base["x"][:12], base["log10s"][:12], base["z"][:12]
     p = len(base["theta"])
     alts = []
@@ -386,7 +387,14 @@ def body_history(case, ctx):
         y = th0 + np.array(case["z"]) * s          # data scattered about the parameters themselves
     thetas = [th0] + [np.array(t, dtype=float) for t in case["alts"]]
     used_model = model if wrap_kind == "none" else MemoModel(model, identity=(wrap_kind == "identity"))
-    like = CLASSES[cls](y.copy(), s.copy(), used_model, forward_model_jacobian=used_model.jac)
+    y_given, s_given = y.copy(), s.copy()
+    like = CLASSES[cls](y_given, s_given, used_model, forward_model_jacobian=used_model.jac)
+    if case.get("caller_reuses_data"):
+        # the arrays handed over are the caller's (a buffer refilled for the next likelihood, an in-place y -= y.mean()): what the caller
+        # does with them afterwards is not the data this object was given
+        y_given += 1.0 + 3.0 * np.abs(y_given)
+        s_given *= 7.0
+        ctx.event("caller re-used its data arrays after construction")
     if wrap_kind == "identity":
         model = MemoModel(model, identity=True)   # reference predictions: the parameters
     buf = th0.copy()
